@@ -4,6 +4,9 @@ import Driver.FormulaCmd
 import Driver.SLCmd
 import Driver.QuadtreeCmd
 import Driver.EstimatorCmd
+import Driver.ParamCmd
+import Driver.EstimCmd
+import Driver.AsmCmd
 /- stbem-driver: one protocol line in, one canonical line out. -/
 open Driver
 
@@ -21,6 +24,9 @@ def dispatch (st : St) (line : String) : St × String :=
   | "sl" :: _ => let r := slCmd st.sl args; ({ st with sl := r.1 }, r.2)
   | "qt" :: _ => let r := qtCmd st.qt args; ({ st with qt := r.1 }, r.2)
   | "ee" :: _ => let r := eeCmd st.mesh args; ({ st with mesh := r.1 }, r.2)
+  | "param" :: _ => (st, paramCmd args)
+  | "est" :: _ => (st, estimCmd args)
+  | "asm" :: _ => (st, asmCmd args)
   | "mesh" :: _ => let r := meshCmd st.mesh args; ({ st with mesh := r.1 }, r.2)
   | _ => (st, "bad-op")
 
